@@ -1,5 +1,6 @@
 SPECIFICATION Spec
 CONSTANTS
   Depths = {1001, 100000}
+  ParserDepths = {1000000}
   Variants = {"closed", "open"}
 CHECK_DEADLOCK FALSE
